@@ -270,7 +270,8 @@ class DensityMatrixEvolution(MatrixData, BasisManaged, Saveable):
 
         """        
 
-        out = numpy.loadtxt(filename)
+        # a file with a single time point still holds a matrix
+        out = numpy.loadtxt(filename, ndmin=2)
         
         N = int(numpy.sqrt(out.shape[1] - 1))
 
